@@ -142,7 +142,9 @@ class Checker:
             if impl == alt:
                 model = alt
                 self.ctx.dist("model:documented-cfg")
-        spec = self.drv.call("c15.spec", tree=ex)["lines"]
+        r = self.drv.call("c15.spec", tree=ex)
+        spec = r["lines"]
+        self.last_wf = (r["wf_unquote"], r["wf_kinds"])
         return tree, impl, model, spec
 
     def fails(self, src):
@@ -174,6 +176,10 @@ class Checker:
         ctx.dist(f"{stream}:programs")
         if any(l.startswith("/") and "/_hash=" in l for l in impl):
             ctx.dist("programs-with-expressions")
+        ctx.dist("hypothesis wfUnquote " + ("holds" if self.last_wf[0] else "FAILS") + " on the real tree")
+        ctx.dist("hypothesis wfKinds " + ("holds" if self.last_wf[1] else "FAILS") + " on the real tree")
+        if impl == spec and not all(self.last_wf):
+            ctx.dist("hypothesis fails but implementation = specification")
         if impl == spec and impl == model:
             if len(ctx.cov["samples"]) < 3 and 8 <= len(impl) <= 40:
                 ctx.sample({"stream": stream, "source": src, "impl_lines": len(impl), "impl==model==spec": True,
@@ -369,7 +375,7 @@ def corpus_sources(ctx):
         except (SyntaxError, ValueError):
             continue
         # the real post-processing is quadratic (greedy multi-line groups): keep the corpus affordable
-        if n_nodes > (700 if ctx.tier == "quick" else 4000):
+        if n_nodes > (700 if ctx.tier == "quick" else 3000):
             ctx.dist("corpus:skipped-too-big")
             continue
         out.append((str(p.relative_to(repo)), src))
@@ -396,7 +402,7 @@ def run(ctx):
             sources.append(src)
         for i, src in enumerate(ADVERSARIAL_SEEDS):
             ck.case("adversarial-seeds", f"adv{i}", src)
-        n_gen = 350 if ctx.tier == "quick" else 8000
+        n_gen = 350 if ctx.tier == "quick" else 5500
         rejected = 0
         for depth, adv, share in ((3, 0.0, 0.35), (4, 0.15, 0.45), (6, 0.3, 0.2)):
             gen = fe.Gen(ctx.rng, max_depth=depth if ctx.tier == "quick" else depth + 1, adv=adv)
@@ -435,11 +441,15 @@ def run(ctx):
         "C15_hash (same `_hash` ⇔ same context-free repr within one flattening)",
         "C15_stateless / C15_sequence (result independent of the factory state; any sequence of flattenings)",
         "C15_flatten_eq (flatten_ast = post-processing of the pure dump)",
+        "C15_tweak_unquote_partial, C15_tweak_kinds_partial (two of the six passes are tree-level tweaks, under local clauses)",
+        "C15_async_counterexample, C15_bytes_counterexample, C15_kind_in_string_counterexample (witnesses of the recorded findings)",
     ]
     ctx.cov["exercised_only"] = [
         "that the exported repr of an expression is equal for two expressions iff they are the same expression up to "
         "load/store context (checked by c15.spec: hashes recomputed from a structural canonical form)",
         "ast.parse itself (tree and line numbers are inputs of the model)",
+        "C15_tweaks_full: that the four other passes (suppress_alias_pos, suppress_posonlyargs, backport_all_constants, "
+        "simplify_negative_literals) and the composition of the six are the tree-level tweak `tweak` (c15.spec = dump of `tweak`)",
     ]
     ctx.cov["trusted_base"] = core.BASE_TRUST + [
         "harness/flat_export.py: exporter of the real ast tree (types, fields in iter_fields order, lineno, repr of scalars, "
